@@ -371,8 +371,15 @@ def active_vertices_not_adjacent_and_not_segmenting(
     if graph is None:
         if not isinstance(is_active, BoolArray2D):
             raise TypeError("'is_active' should be a BoolArray2D if graph is not " "specified")
-        active_vertices_not_adjacent(solver, is_active)
         height, width = is_active.shape
+        if height == 1 or width == 1:
+            # no diagonal neighbours here: the chain encoding below cannot see an interior
+            # active cell cutting the single row / column in two
+            active_vertices_not_adjacent_and_not_segmenting(
+                solver, is_active.flatten(), _grid_graph(height, width)
+            )
+            return
+        active_vertices_not_adjacent(solver, is_active)
         ranks = solver.int_array((height, width), 0, (height * width - 1) // 2)
         for y in range(height):
             for x in range(width):
